@@ -30,9 +30,9 @@ FAULTS = ['values', 'nan', 'inf', 'huge', 'order']
 QUICK = [('nonint_pipe', 24), ('solo_pipe', 24), ('jit_eager', 3),
          ('nonint_script', 12), ('solo_script', 8), ('nonint_env', 12),
          ('solo_env', 8), ('domain_rand', 4)]
-THOROUGH = [('nonint_pipe', 700), ('solo_pipe', 700), ('jit_eager', 40),
-            ('nonint_script', 400), ('solo_script', 200), ('nonint_env', 240),
-            ('solo_env', 160), ('domain_rand', 60)]
+THOROUGH = [('nonint_pipe', 350), ('solo_pipe', 350), ('jit_eager', 24),
+            ('nonint_script', 200), ('solo_script', 100), ('nonint_env', 120),
+            ('solo_env', 80), ('domain_rand', 36)]
 X64_MODES = ('solo_pipe', 'jit_eager')
 
 
